@@ -3,6 +3,8 @@ C05 — Locked or wrong passphrase means no private-key access, and memory is wi
 Property theorems about `AddrLock` (model of waddrmgr's lock state, buffers and caches).
 -/
 import BtcwVerif.Lemmas.AddrLock
+import BtcwVerif.Lemmas.AddrDou
+import BtcwVerif.Lemmas.AddrWipedStep
 namespace AddrLock
 
 /-! ## 1. `C05_denied`: while locked or watching-only every private-material operation is refused -/
@@ -108,64 +110,16 @@ theorem C05_counterexample_F1 :
 
 /-! ## 2. `C05_wiped`: locking clears every clear-text key buffer -/
 
-/-- every in-memory clear-text copy of master, crypto, account and address private keys (and the cached derived
-keys) is nil / zero.  Script clear text: the P2SH script buffers are included; secret witness / taproot script
-clear text is NOT (observation O1: `lock()` has no case for those types; scripts are not private keys). -/
-structure KeyClear (m : Mem) : Prop where
-  master  : m.masterPriv ≠ .nonzero
-  cpriv   : m.cryptoPriv ≠ .nonzero
-  cscript : m.cryptoScript ≠ .nonzero
-  hashed  : m.hashed = none
-  acct    : ∀ sc, sc < nScopes → ∀ p ∈ (m.scopes sc).acctInfo, p.2.keyPriv = false
-  pkc     : ∀ sc, sc < nScopes → (m.scopes sc).pkc = []
-  addrs   : ∀ sc, sc < nScopes → ∀ p ∈ (m.scopes sc).addrs,
-              ((m.heap p.2).kind = .managed ∨ (m.heap p.2).kind = .script) → (m.heap p.2).ct = false
-  last    : ∀ sc, sc < nScopes → ∀ p ∈ (m.scopes sc).acctInfo,
-              ((m.heap p.2.lastExt).kind = .managed → (m.heap p.2.lastExt).ct = false) ∧
-              ((m.heap p.2.lastInt).kind = .managed → (m.heap p.2.lastInt).ct = false)
-
-theorem zeroed_ne (b : Buf) : b.zeroed ≠ .nonzero := by cases b <;> simp [Buf.zeroed]
-
-theorem mem_range_nScopes {sc : Nat} (h : sc < nScopes) : sc ∈ List.range nScopes := List.mem_range.mpr h
+-- `KeyClear m` (every in-memory clear-text copy of master, crypto, account and address private keys, and the cached
+-- derived keys, is nil / zero; P2SH script clear text included, secret witness / taproot script clear text NOT —
+-- observation O1) is defined in `Lemmas/AddrWiped.lean`, where it is carried through the operations.
 
 /-- `Manager.lock()` on the fixed tree (f1: cache purge, f11: last addresses) clears everything, from ANY state. -/
 theorem C05_wiped_by_lock (cfg : Cfg) (hf1 : cfg.f1 = true) (hf11 : cfg.f11 = true) (m : Mem) :
-    KeyClear (lockMem cfg m) := by
-  refine ⟨zeroed_ne _, zeroed_ne _, zeroed_ne _, rfl, ?_, ?_, ?_, ?_⟩
-  · intro sc _ p hp
-    simp only [lockMem, lockScope, List.mem_map] at hp
-    obtain ⟨q, _, rfl⟩ := hp
-    rfl
-  · intro sc _; simp [lockMem, lockScope, hf1]
-  · intro sc hsc p hp hk
-    simp only [lockMem, lockScope] at hp hk ⊢
-    have hw : shouldWipe cfg m p.2 = true := by
-      simp only [shouldWipe, List.any_eq_true, Bool.or_eq_true, Bool.and_eq_true]
-      refine ⟨sc, mem_range_nScopes hsc, Or.inl ⟨?_, p, hp, by simp⟩⟩
-      by_cases hwp : shouldWipe cfg m p.2 = true
-      · simp only [hwp, if_true] at hk; simpa using hk
-      · simp only [hwp] at hk; simpa using hk
-    simp [hw]
-  · intro sc hsc p hp
-    simp only [lockMem, lockScope, List.mem_map] at hp ⊢
-    obtain ⟨q, hq, rfl⟩ := hp
-    dsimp only
-    have key : ∀ id, (id = q.2.lastExt ∨ id = q.2.lastInt) →
-        ((if shouldWipe cfg m id = true then { m.heap id with ct := false } else m.heap id).kind = .managed →
-         (if shouldWipe cfg m id = true then { m.heap id with ct := false } else m.heap id).ct = false) := by
-      intro id hid hk
-      have hk' : (m.heap id).kind = .managed := by
-        by_cases hwp : shouldWipe cfg m id = true
-        · simp only [hwp, if_true] at hk; exact hk
-        · simp only [hwp] at hk; exact hk
-      have hw : shouldWipe cfg m id = true := by
-        simp only [shouldWipe, List.any_eq_true, Bool.or_eq_true, Bool.and_eq_true]
-        refine ⟨sc, mem_range_nScopes hsc, Or.inr ⟨⟨hf11, by simp [hk']⟩, q, hq, ?_⟩⟩
-        rcases hid with h | h <;> simp [h]
-      simp [hw]
-    exact ⟨key _ (Or.inl rfl), key _ (Or.inr rfl)⟩
+    KeyClear (lockMem cfg m) := keyClear_lockMem cfg hf1 hf11 m
 
-/-- `Lock()` that succeeds leaves every key buffer clear — for every state, hence after every history. -/
+/-- `Lock()` that succeeds leaves every key buffer clear — for every state, hence after every history.  That every
+reachable LOCKED state is clear (not only the one right after `Lock()`) is `C05_wiped_histories` below (needs f13). -/
 theorem C05_wiped (cfg : Cfg) (hf1 : cfg.f1 = true) (hf11 : cfg.f11 = true) (m : Mem)
     (h : (lockOp cfg m).2 = none) : KeyClear (lockOp cfg m).1 ∧ (lockOp cfg m).1.locked = true := by
   unfold lockOp at h ⊢
@@ -190,7 +144,8 @@ theorem C05_counterexample_F11 :
 
 /-- F13 (tree without the fix): the OnCommit closure of nextAddresses re-inserts address objects that were
 built while unlocked; if the manager is locked between the call and the commit, the cache holds a clear-text key
-while locked.  So "stays clear while locked" is NOT an invariant of bracketed histories. -/
+while locked.  So "stays clear while locked" is NOT an invariant of bracketed histories on such a tree; on the
+current tree (f13) it is: `C05_wiped_histories`. -/
 theorem C05_counterexample_F13 :
     let s := run {cfg := { Cfg.fixed with f13 := false }} [.create 5 1, .unlock 1, .begin, .next 1 0 1 false, .lock, .commit]
     lockedOf s = some true ∧ addrCT s 1 (.chain 0 0 0) = some true := by
@@ -241,26 +196,8 @@ theorem unlockAccts_f2 (cfg : Cfg) (hf2 : cfg.f2 = true) (l : List (Nat × AcctI
     · exact ⟨(a, { i with keyPriv := true }) :: t', by simp [unlockAccts, hi, ht], by simp [hm]⟩
     · exact ⟨(a, i) :: t', by simp [unlockAccts, hi, hf2, ht], by simp [hm]⟩
 
-theorem aget_isSome_of_keys {β} (l l' : List (Nat × β)) (h : l'.map (·.1) = l.map (·.1)) (k : Nat) :
-    (aget l' k).isSome = (aget l k).isSome := by
-  induction l generalizing l' with
-  | nil => cases l' with | nil => rfl | cons _ _ => simp at h
-  | cons p t ih =>
-    cases l' with
-    | nil => simp at h
-    | cons p' t' =>
-      obtain ⟨k1, v1⟩ := p; obtain ⟨k2, v2⟩ := p'
-      simp only [List.map_cons, List.cons.injEq] at h
-      obtain ⟨hk, ht⟩ := h
-      have hk : k2 = k1 := hk
-      subst hk
-      by_cases hkk : k2 = k
-      · simp [aget, hkk]
-      · simp [aget, hkk, ih t' ht]
-
-/-- every address queued for derive-on-unlock belongs to an account that is in the account cache -/
-def DouOK (m : Mem) : Prop :=
-  ∀ sc, ∀ e ∈ (m.scopes sc).dou, (aget (m.scopes sc).acctInfo e.acct).isSome = true
+-- `aget_isSome_of_keys` and `DouOK` (every address queued for derive-on-unlock belongs to an account that is in the
+-- account cache) live in `Lemmas/AddrDou.lean`, where `DouOK` is carried through every operation.
 
 /-- processing a derive-on-unlock list whose accounts are all cached never fails on the fixed tree (f2b), touches
 only scope `sc` and the heap, and keeps the cached account numbers. -/
@@ -509,12 +446,7 @@ theorem passOK_exec (s : State) (m : Mem) (hs : s.mem = some m) (op : Op) (h : P
 /-- the passphrase bookkeeping invariant at the level of states -/
 def StPassOK (s : State) : Prop := ∀ m, s.mem = some m → PassOK m
 
-theorem exec_cfg (s : State) (m : Mem) (op : Op) : (exec s m op).1.cfg = s.cfg := by
-  cases op <;> simp only [exec] <;> (repeat' split) <;> rfl
-
-theorem step_cfg (s : State) (op : Op) : (step s op).1.cfg = s.cfg := by
-  unfold step
-  cases op <;> simp only [] <;> (repeat' split) <;> first | rfl | (simp only [rollbackTx, commitTx, exec_cfg])
+-- `exec_cfg` / `step_cfg` / `run_cfg` (the configuration never changes) live in `Lemmas/AddrDou.lean`.
 
 theorem passOK_commitTx (s : State) (h : StPassOK s) : StPassOK (commitTx s) := by
   intro m hm
@@ -567,11 +499,6 @@ theorem passOK_step (s : State) (op : Op) (h : StPassOK s) (hc : s.cfg.f12 = tru
     · exact h
     · rename_i m hs; exact generic m hs
 
-theorem run_cfg (s : State) (ops : List Op) : (run s ops).cfg = s.cfg := by
-  induction ops generalizing s with
-  | nil => rfl
-  | cons op ops ih => simp only [run]; rw [ih, step_cfg]
-
 theorem passOK_run (s : State) (ops : List Op) (h : StPassOK s)
     (hc : s.cfg.f12 = true ∨ ∀ op ∈ ops, op.noEmpty = true) : StPassOK (run s ops) := by
   induction ops generalizing s with
@@ -599,7 +526,8 @@ manager locked (whether it was locked or unlocked before).  `_partial`: the hypo
 salt fix (f12 = false) the histories must not use the EMPTY private passphrase (see `C05_counterexample_F12` for what
 goes wrong otherwise — for the *right* passphrase; the wrong-passphrase clause itself is not known to fail).  On the
 current tree (/repo aeb55de and later, f12 = true, detected by the engine's probe) the first disjunct of `hc` holds
-and the statement covers every history. -/
+and the statement covers every history.
+SUPERSEDED for the current tree by `C05_unlock_wrong_histories` below (no hypothesis `hc`). -/
 theorem C05_unlock_wrong_histories_partial (cfg : Cfg) (ops : List Op)
     (hc : cfg.f12 = true ∨ ∀ op ∈ ops, op.noEmpty = true) (m : Mem)
     (hm : (run { cfg := cfg } ops).mem = some m) (hw : m.watchOnly = false) (p : Nat) (hp : p ≠ m.privPass) (d : Disk) :
@@ -609,12 +537,129 @@ theorem C05_unlock_wrong_histories_partial (cfg : Cfg) (ops : List Op)
 /-- after every history (same restriction), on the fixed tree (f2, f2b): the current passphrase unlocks.
 `_partial`: `DouOK` (every queued derive-on-unlock address belongs to a cached account) is a hypothesis here; it
 is a structural invariant of the model (entries are only appended right after their account was cached, the
-account cache never shrinks) that is exercised by the differential run but not yet proved over histories. -/
+account cache never shrinks) that was not proved over histories when this theorem was written.
+SUPERSEDED for the current tree by `C05_unlock_right_histories` below: `DouOK` is now proved for every history
+(`C05_douOK_invariant`) and `hc` is discharged by the configuration. -/
 theorem C05_unlock_right_histories_partial (cfg : Cfg) (hf2 : cfg.f2 = true) (hf2b : cfg.f2b = true) (ops : List Op)
     (hc : cfg.f12 = true ∨ ∀ op ∈ ops, op.noEmpty = true) (m : Mem)
     (hm : (run { cfg := cfg } ops).mem = some m) (hw : m.watchOnly = false) (hd : DouOK m) (d : Disk) :
     (unlock cfg d m m.privPass).2 = none ∧ (unlock cfg d m m.privPass).1.locked = false :=
   C05_unlock_right cfg hf2 hf2b d m hw (C05_passOK_invariant cfg ops hc m hm) hd
+
+/-! ### the full statements for the current tree (every fix flag on)
+
+`C05_unlock_wrong_histories_partial` / `C05_unlock_right_histories_partial` above are SUPERSEDED for the current tree
+by the two theorems below: hypothesis (a) "f12 or no EMPTY passphrase" is discharged by the configuration (the
+engine's probes report every flag on for /repo today, so the tree under test is `Cfg.fixed`-like), hypothesis (b)
+`DouOK` is an invariant of every history (`stDou_run`, Lemmas/AddrDou.lean).  The model has no
+InvalidateAccountCache op (waddrmgr's `InvalidateAccountCache`, which since /repo 4e25286 also drops the queued
+derive-on-unlock entries of the account, is outside the op set): no operation of the model removes an account from the
+account cache, so no operation can break `DouOK`; a restart (`reopen`) builds a fresh memory with empty caches and an
+empty queue.  "Current passphrase" is `m.privPass`, the passphrase the master-key parameters held by the RUNNING
+manager were made from (equal to the database's except after a rolled-back ChangePassphrase, observation O3). -/
+
+/-- the configuration of the current tree: every fix flag on (`cap` is free) -/
+def Cfg.allFixed (c : Cfg) : Prop :=
+  c.f1 = true ∧ c.f2 = true ∧ c.f2b = true ∧ c.f3 = true ∧ c.f11 = true ∧ c.f12 = true ∧ c.f13 = true ∧ c.fo1 = true
+
+theorem Cfg.fixed_allFixed : Cfg.fixed.allFixed := ⟨rfl, rfl, rfl, rfl, rfl, rfl, rfl, rfl⟩
+
+/-- `DouOK` and the pending-closure facts hold after EVERY history (any configuration). -/
+theorem C05_douOK_invariant (cfg : Cfg) (ops : List Op) : StDou (run { cfg := cfg } ops) :=
+  stDou_run _ ops (stDou_init cfg)
+
+/-- After EVERY history of model operations from `create` (brackets begin/commit/rollback, imports, watch-only
+accounts, lock/unlock, public and private passphrase changes locked or unlocked, restarts — any `List Op`), on the
+current tree, on a non-watching-only manager: `Unlock(current passphrase)` succeeds and leaves it unlocked — whatever
+database view `d` the call runs against. -/
+theorem C05_unlock_right_histories (cfg : Cfg) (hfix : cfg.allFixed) (ops : List Op) (m : Mem)
+    (hm : (run { cfg := cfg } ops).mem = some m) (hw : m.watchOnly = false) (d : Disk) :
+    (unlock cfg d m m.privPass).2 = none ∧ (unlock cfg d m m.privPass).1.locked = false :=
+  C05_unlock_right cfg hfix.2.1 hfix.2.2.1 d m hw
+    (C05_passOK_invariant cfg ops (Or.inl hfix.2.2.2.2.2.1) m hm) ((C05_douOK_invariant cfg ops).mem m hm).1
+
+/-- After EVERY history, on the current tree, on a non-watching-only manager: `Unlock(p)` for any `p` other than the
+current passphrase fails with ErrWrongPassphrase and leaves the manager locked — also when it was unlocked before. -/
+theorem C05_unlock_wrong_histories (cfg : Cfg) (hfix : cfg.allFixed) (ops : List Op) (m : Mem)
+    (hm : (run { cfg := cfg } ops).mem = some m) (hw : m.watchOnly = false) (p : Nat) (hp : p ≠ m.privPass) (d : Disk) :
+    (unlock cfg d m p).2 = some .wrongPassphrase ∧ (unlock cfg d m p).1.locked = true :=
+  C05_unlock_wrong cfg d m p hw (C05_passOK_invariant cfg ops (Or.inl hfix.2.2.2.2.2.1) m hm) hp
+
+/-- the same two facts as results of the model's `unlock` OPERATION issued after the history (inside or outside a
+bracket): `.ok` and unlocked for the current passphrase; `.err wrongPassphrase` and locked for any other. -/
+theorem C05_unlock_histories_step (cfg : Cfg) (hfix : cfg.allFixed) (ops : List Op) (m : Mem)
+    (hm : (run { cfg := cfg } ops).mem = some m) (hw : m.watchOnly = false) :
+    let s := run { cfg := cfg } ops
+    ((step s (.unlock m.privPass)).2 = .ok ∧ lockedOf (step s (.unlock m.privPass)).1 = some false) ∧
+    ∀ p, p ≠ m.privPass →
+      (step s (.unlock p)).2 = .err .wrongPassphrase ∧ lockedOf (step s (.unlock p)).1 = some true := by
+  intro s
+  have hcfg : s.cfg = cfg := run_cfg _ ops
+  have hm' : s.mem = some m := hm
+  have hstep : ∀ p, step s (.unlock p) =
+      ({ s with mem := some (unlock s.cfg s.disk m p).1 }, ofErr (unlock s.cfg s.disk m p).2) := by
+    intro p
+    simp only [step, hm', exec, Op.writes, Bool.not_false, Bool.or_true, if_true]
+  refine ⟨?_, fun p hp => ?_⟩
+  · obtain ⟨h1, h2⟩ := C05_unlock_right_histories cfg hfix ops m hm hw s.disk
+    rw [hstep, hcfg]; simp [lockedOf, h1, h2, ofErr]
+  · obtain ⟨h1, h2⟩ := C05_unlock_wrong_histories cfg hfix ops m hm hw p hp s.disk
+    rw [hstep, hcfg]; simp [lockedOf, h1, h2, ofErr]
+
+/-- non-vacuity of the full statements: a bracketed history with a watch-only account loaded while locked, addresses
+issued while locked inside a bracket, a Lock between issue and commit, a rolled-back bracket, a private passphrase
+change to the EMPTY passphrase and a restart reaches a non-watching-only manager; the theorems' conclusions are
+what the model computes. -/
+example :
+    let s := run { cfg := Cfg.fixed }
+      [.create 5 1, .unlock 1, .newAccount 1 "a" false, .newAccount 1 "x" true, .lock, .q (.props 1 2),
+       .begin, .next 1 2 2 false, .next 1 0 1 true, .commit, .begin, .next 1 1 1 false, .rollback,
+       .changePass 1 EMPTY true, .reopen 5, .q (.props 1 2), .next 1 1 1 false]
+    (s.mem.map fun m => (m.watchOnly, m.privPass, (step s (.unlock EMPTY)).2, (step s (.unlock 1)).2)) =
+      some (false, EMPTY, .ok, .err .wrongPassphrase) := by
+  decide
+
+/-! ### "stays wiped while locked", over ALL histories, on the current tree
+
+`C05_wiped_by_lock` / `C05_wiped` above say that locking wipes.  Before the F13 fix (/repo bb83ae8, flag f13) that
+was all that could be proved: `C05_counterexample_F13` shows a bracketed history after which a LOCKED manager caches a
+clear-text key.  On the current tree the full statement holds: -/
+
+/-- In EVERY state reachable from `create` by ANY history of model operations (brackets, commits of closures
+registered before a Lock, rollbacks, imports, watch-only accounts, passphrase changes, restarts, failed and
+successful unlocks) on the current tree, a LOCKED manager holds no clear-text key: master / crypto / script keys and
+the hashed passphrase are nil or zero, no cached account has its private key, the derived-key cache is empty, and
+every address object in `s.addrs` and every cached last-address object is wiped (`KeyClear`). -/
+theorem C05_wiped_histories (cfg : Cfg) (hfix : cfg.allFixed) (ops : List Op) (m : Mem)
+    (hm : (run { cfg := cfg } ops).mem = some m) (hl : m.locked = true) : KeyClear m :=
+  ((stW_run { cfg := cfg } ⟨hfix.1, hfix.2.2.2.2.1, hfix.2.2.1, hfix.2.2.2.2.2.2.1⟩ ops (stW_init cfg)).mem m hm).1 hl
+
+/-- the same statement with only the four flags it depends on: f1 (28aa715), f11 (15e7986), f2b (2a11dd6: Unlock
+cannot stop half-way with a panic, keys restored and `locked` still set), f13 (bb83ae8). -/
+theorem C05_wiped_histories_flags (cfg : Cfg) (hf1 : cfg.f1 = true) (hf11 : cfg.f11 = true) (hf2b : cfg.f2b = true)
+    (hf13 : cfg.f13 = true) (ops : List Op) (m : Mem)
+    (hm : (run { cfg := cfg } ops).mem = some m) (hl : m.locked = true) : KeyClear m :=
+  ((stW_run { cfg := cfg } ⟨hf1, hf11, hf2b, hf13⟩ ops (stW_init cfg)).mem m hm).1 hl
+
+/-- the same over the buffer map exactly as the hook `VerifBufferReport` lists it: in every reachable locked state
+also the clear-text key of both cached last-address objects of every cached account is nil, whatever their kind
+(`BufClear`; the model invariant `LastKind` — those slots always hold live `*managedAddress` objects — discharges the
+`kind = managed` premise of `KeyClear.last`).  Not covered (observation O1, as everywhere in C05): the clear text of
+SECRET witness / taproot scripts, which `lock()` does not wipe. -/
+theorem C05_wiped_histories_bufmap (cfg : Cfg) (hfix : cfg.allFixed) (ops : List Op) (m : Mem)
+    (hm : (run { cfg := cfg } ops).mem = some m) (hl : m.locked = true) : BufClear m :=
+  have h := (stW_run { cfg := cfg } ⟨hfix.1, hfix.2.2.2.2.1, hfix.2.2.1, hfix.2.2.2.2.2.2.1⟩ ops (stW_init cfg)).mem m hm
+  bufClear_of (h.1 hl) h.2.1
+
+/-- non-vacuity: the history of `C05_counterexample_F13` extended by more bracketed issuing, a failed Unlock of an
+unlocked manager and a conversion reaches locked states (with cached addresses and accounts) on the current tree. -/
+example :
+    let s := run { cfg := Cfg.fixed }
+      [.create 5 1, .unlock 1, .q (.lastAddr 1 0 false), .begin, .next 1 0 2 false, .importKey 1 7 true, .lock, .commit,
+       .unlock 1, .derive 1 0 0 5, .deriveCache 1 0 0 5, .begin, .next 1 0 1 true, .unlock 9, .commit]
+    lockedOf s = some true ∧ addrCT s 1 (.chain 0 0 1) = some false ∧ addrCT s 1 (.chain 0 1 0) = some false ∧
+    addrCT s 1 (.imp 7) = some false ∧ lastExtCT s 1 0 = some false := by
+  decide
 
 /-- non-vacuity: a concrete history with accounts, a watch-only account, addresses issued while locked, and a
 passphrase change reaches a state where the hypotheses hold and Unlock(current) succeeds. -/
@@ -625,6 +670,228 @@ example :
     (s.mem.map fun m => ((unlock s.cfg s.disk m 2).2, (unlock s.cfg s.disk m 1).2)) =
       some (none, some .wrongPassphrase) := by
   decide
+
+/-! ### a watching-only manager is always locked; the current passphrase as a function of the history -/
+
+theorem step_mem_cases (s : State) (op : Op) (P : Mem → Prop)
+    (hopen : ∀ d, P (openMem d)) (hold : ∀ m, s.mem = some m → P m)
+    (hexec : ∀ (s' : State) m, s'.mem = some m → s.mem = some m → s'.cfg = s.cfg → s'.disk = s.disk →
+      ∀ m', (exec s' m op).1.mem = some m' → P m')
+    (hpend : ∀ cfg m p, P m → P (runPend cfg m p)) :
+    ∀ m', (step s op).1.mem = some m' → P m' := by
+  have hfold : ∀ cfg (ps : List Pend) m, P m → P (ps.foldl (runPend cfg) m) := by
+    intro cfg ps
+    induction ps with
+    | nil => intro m h; exact h
+    | cons p ps ih => intro m h; simp only [List.foldl]; exact ih _ (hpend cfg m p h)
+  have hcommit : ∀ s' : State, (∀ m, s'.mem = some m → P m) → ∀ m, (commitTx s').mem = some m → P m := by
+    intro s' h m hm
+    simp only [commitTx] at hm
+    cases hs : s'.mem with
+    | none => rw [hs] at hm; cases hm
+    | some m0 => rw [hs] at hm; simp only [Option.map] at hm; cases hm; exact hfold _ _ _ (h m0 hs)
+  have generic : ∀ m, s.mem = some m →
+      ∀ m', (if s.snap.isSome || !op.writes then exec s m op
+        else
+          let r := exec { s with snap := some s.disk, pend := [] } m op
+          if isErr r.2 then (rollbackTx r.1, r.2) else (commitTx r.1, r.2)).1.mem = some m' → P m' := by
+    intro m hs
+    split
+    · intro m' hm'; exact hexec s m hs hs rfl rfl m' hm'
+    · dsimp only
+      have hex : ∀ m', (exec { s with snap := some s.disk, pend := [] } m op).1.mem = some m' → P m' :=
+        fun m' hm' => hexec { s with snap := some s.disk, pend := [] } m hs hs rfl rfl m' hm'
+      split
+      · intro m' hm'; exact hex m' (by simpa [rollbackTx] using hm')
+      · exact hcommit _ hex
+  unfold step
+  cases op
+  case create =>
+    simp only []; split
+    · exact hold
+    · split
+      · exact hold
+      · intro m hm; simp only at hm; cases hm; exact hopen _
+  case reopen =>
+    simp only []; split
+    · exact hold
+    · split
+      · exact hold
+      · split
+        · intro m hm; cases hm
+        · intro m hm; simp only at hm; cases hm; exact hopen _
+  case begin => simp only []; split <;> exact hold
+  case commit => simp only []; split; exact hold; exact hcommit _ hold
+  case rollback => simp only []; split; exact hold; exact hold
+  all_goals
+    simp only []
+    split
+    · exact hold
+    · rename_i m hs; exact generic m hs
+
+/-- a watching-only manager is locked -/
+def WOLocked (m : Mem) : Prop := m.watchOnly = true → m.locked = true
+
+theorem woLocked_of_scal {m m' : Mem} (h : Scal m' = Scal m) (hp : WOLocked m) : WOLocked m' := by
+  unfold WOLocked at *
+  have h1 : m'.locked = m.locked := congrArg (·.1) h
+  have h2 : m'.watchOnly = m.watchOnly := congrArg (·.2.1) h
+  rw [h1, h2]; exact hp
+
+theorem woLocked_locked {m : Mem} (h : m.locked = true) : WOLocked m := fun _ => h
+
+theorem woLocked_unlock (cfg : Cfg) (d : Disk) (m : Mem) (p : Nat) (h : WOLocked m) : WOLocked (unlock cfg d m p).1 := by
+  unfold unlock
+  split
+  · exact h
+  · rename_i hw
+    have hw' : m.watchOnly = false := by simpa using hw
+    split
+    · dsimp only; split
+      · intro hc; rw [hw'] at hc; cases hc
+      · exact woLocked_locked rfl
+    · split
+      · exact woLocked_locked rfl
+      · dsimp only
+        have key := scal_unlockScopes cfg d (List.range nScopes) (unlockStart cfg m)
+        split
+        · rename_i m2 heq; rw [heq] at key
+          exact woLocked_of_scal (m := unlockStart cfg m) key (fun hc => by rw [show (unlockStart cfg m).watchOnly = m.watchOnly from rfl, hw'] at hc; cases hc)
+        · exact woLocked_locked rfl
+        · rename_i m2 heq; rw [heq] at key
+          have h2 : m2.watchOnly = m.watchOnly := congrArg (·.2.1) key
+          intro hc; rw [show ({ m2 with locked := false, hashed := some (p, m2.saltZero), saltZero := saltAfter cfg m2 p } : Mem).watchOnly = m2.watchOnly from rfl, h2, hw'] at hc; cases hc
+
+theorem woLocked_exec (s : State) (m : Mem) (hs : s.mem = some m) (op : Op) (h : WOLocked m)
+    (m' : Mem) (hm : (exec s m op).1.mem = some m') : WOLocked m' := by
+  by_cases hp : op.plain = true
+  · exact woLocked_of_scal (scal_exec s m hs op hp m' hm) h
+  · cases op <;> simp only [Op.plain] at hp <;> simp only [exec] at hm
+    all_goals try (exact absurd trivial hp)
+    case create => rw [hs] at hm; cases hm; exact h
+    case reopen => rw [hs] at hm; cases hm; exact h
+    case begin => rw [hs] at hm; cases hm; exact h
+    case commit => rw [hs] at hm; cases hm; exact h
+    case rollback => rw [hs] at hm; cases hm; exact h
+    case unlock p => cases hm; exact woLocked_unlock _ _ _ _ h
+    case lock =>
+      cases hm
+      unfold lockOp; split
+      · exact h
+      · split
+        · exact h
+        · exact woLocked_locked rfl
+    case changePass o n pr =>
+      cases hm
+      unfold changePass
+      repeat' split
+      all_goals first | exact h | (intro hc; exact h hc)
+    case convertWO =>
+      cases hm
+      unfold convertWO
+      split
+      · exact h
+      · apply woLocked_locked
+        dsimp only
+        by_cases hl : m.locked = true
+        · simp [hl]
+        · simp [hl, lockMem]
+
+theorem woLocked_run (ops : List Op) (s : State) (h : ∀ m, s.mem = some m → WOLocked m) :
+    ∀ m, (run s ops).mem = some m → WOLocked m := by
+  induction ops generalizing s with
+  | nil => exact h
+  | cons op ops ih =>
+    simp only [run]
+    apply ih
+    exact step_mem_cases s op WOLocked (fun d => woLocked_locked rfl) h
+      (fun s' m hs' hs _ _ m' hm' => woLocked_exec s' m hs' op (h m hs) m' hm')
+      (fun cfg m p hp => woLocked_of_scal (scal_runPend cfg m p) hp)
+
+/-- after EVERY history (any configuration): a watching-only manager is locked -/
+theorem C05_watchOnly_locked (cfg : Cfg) (ops : List Op) (m : Mem)
+    (hm : (run { cfg := cfg } ops).mem = some m) (hw : m.watchOnly = true) : m.locked = true :=
+  woLocked_run ops { cfg := cfg } (fun m hm => by cases hm) m hm hw
+
+/-- hence, on the current tree, EVERY reachable state that is locked OR watching-only holds no clear-text key -/
+theorem C05_wiped_histories_all (cfg : Cfg) (hfix : cfg.allFixed) (ops : List Op) (m : Mem)
+    (hm : (run { cfg := cfg } ops).mem = some m) (hl : m.locked = true ∨ m.watchOnly = true) : KeyClear m :=
+  C05_wiped_histories cfg hfix ops m hm (hl.elim id (C05_watchOnly_locked cfg ops m hm))
+
+/-! ### which passphrase is "current": `m.privPass` as a function of the history
+
+`create pub priv` and `reopen` install the database's passphrase (`openMem`), a successful private ChangePassphrase
+installs the new one (in memory at once, in the transaction's view of the database), and NO other operation —
+unlock, lock, public change, conversion, accounts, addresses, imports, queries, begin / commit (OnCommit closures) /
+rollback — touches it. -/
+
+theorem unlock_privPass (cfg : Cfg) (d : Disk) (m : Mem) (p : Nat) : (unlock cfg d m p).1.privPass = m.privPass := by
+  unfold unlock
+  split
+  · rfl
+  · split
+    · dsimp only; split <;> rfl
+    · split
+      · rfl
+      · dsimp only
+        have key := (scal_unlockScopes_gen cfg d (List.range nScopes) (unlockStart cfg m)).2.1
+        split
+        · rename_i m2 heq; rw [heq] at key; exact key
+        · rename_i m2 e _ heq; rw [heq] at key; exact key
+        · rename_i m2 heq; rw [heq] at key; exact key
+
+/-- every operation other than a private ChangePassphrase leaves the current passphrase alone -/
+theorem C05_currentPass_frame (s : State) (m : Mem) (hs : s.mem = some m) (op : Op)
+    (hop : ∀ o n, op ≠ .changePass o n true) (m' : Mem) (hm : (exec s m op).1.mem = some m') :
+    m'.privPass = m.privPass := by
+  by_cases hp : op.plain = true
+  · exact congrArg (·.2.2.2.2.2.2.1) (scal_exec s m hs op hp m' hm)
+  · cases op <;> simp only [Op.plain] at hp <;> simp only [exec] at hm
+    all_goals try (exact absurd trivial hp)
+    case create => rw [hs] at hm; cases hm; rfl
+    case reopen => rw [hs] at hm; cases hm; rfl
+    case begin => rw [hs] at hm; cases hm; rfl
+    case commit => rw [hs] at hm; cases hm; rfl
+    case rollback => rw [hs] at hm; cases hm; rfl
+    case unlock p => cases hm; exact unlock_privPass ..
+    case lock =>
+      cases hm; unfold lockOp; split
+      · rfl
+      · split <;> rfl
+    case changePass o n pr =>
+      cases hm
+      cases pr
+      · unfold changePass; simp only [Bool.false_and, Bool.false_eq_true, if_false]; split <;> rfl
+      · exact absurd rfl (hop o n)
+    case convertWO =>
+      cases hm; unfold convertWO; split
+      · rfl
+      · dsimp only; split <;> rfl
+
+/-- a private ChangePassphrase that succeeds makes the new passphrase current (memory and database view); one that
+fails changes neither -/
+theorem C05_currentPass_change (cfg : Cfg) (d : Disk) (m : Mem) (o n : Nat) :
+    ((changePass cfg d m o n true).2.2 = none →
+      (changePass cfg d m o n true).2.1.privPass = n ∧ (changePass cfg d m o n true).1.privPass = n) ∧
+    ((changePass cfg d m o n true).2.2 ≠ none →
+      (changePass cfg d m o n true).2.1 = m ∧ (changePass cfg d m o n true).1 = d) := by
+  unfold changePass
+  simp only [Bool.true_and, if_true]
+  repeat' split
+  all_goals simp
+
+/-- the OnCommit closures run by a commit do not touch it -/
+theorem C05_currentPass_commit (s : State) : (commitTx s).mem.map (·.privPass) = s.mem.map (·.privPass) := by
+  simp only [commitTx]
+  cases s.mem with
+  | none => rfl
+  | some m =>
+    simp only [Option.map]
+    exact congrArg some (congrArg (·.2.2.2.2.2.2.1) (scal_foldl_runPend s.cfg s.pend m))
+
+/-- `create` / `reopen` install the database's private passphrase -/
+theorem C05_currentPass_open (d : Disk) : (openMem d).privPass = d.privPass ∧ (createDisk pub priv).privPass = priv :=
+  ⟨rfl, rfl⟩
 
 /-! ## 4. `C05_change`: after a private passphrase change the new one works and the old one fails, immediately and
 after a restart -/
